@@ -922,3 +922,44 @@ package regexp2
 //@   loop 1:
 //@     invariant 1 <= i && i <= len(gs) && m != nil && ReturnedMatch(m, re.code.RightToLeft) && txt == m.text.runes && 0 <= priorIndex && (!re.code.RightToLeft ==> priorIndex <= m.RuneIndex)
 //@     invariant forall k int :: 0 <= k && k < len(gs) ==> gs[k].text == m.text && 0 <= gs[k].RuneIndex && 0 <= gs[k].RuneLength && gs[k].RuneIndex + gs[k].RuneLength <= len(m.text.runes)
+
+// A compiled replacement: rule r >= 0 is a literal (index into Strings), r < -4 the group with slot -5-r, -4..-1 the
+// special insertions. (What NewReplacerData builds; assumed at the replacement functions.)
+//@ spec func ReplacerWF(data *syntax.ReplacerData, ngroups int) bool = data != nil && forall i int :: 0 <= i && i < len(data.Rules) ==>
+//@     (data.Rules[i] >= 0 ==> data.Rules[i] < len(data.Strings)) && (data.Rules[i] < -4 ==> -5 - data.Rules[i] < ngroups)
+//@ spec func MatchForReplace(m *Match) bool = m != nil && MatchWF(m) && m.text != nil && AllLastCapsInText(m) && 0 <= m.RuneIndex && 0 <= m.RuneLength && m.RuneIndex + m.RuneLength <= len(m.text.runes)
+
+// Left-to-right emission: output only grows, previous output kept (the pieces themselves: groupValueAppendToBuf, writeRunes)
+//@ func replacementImpl(data *syntax.ReplacerData, buf *bytes.Buffer, m *Match)
+//@   props C09
+//@   requires ReplacerWF(data, len(m.matchcount)) && MatchForReplace(m) && buf != nil && buf.$n >= 0
+//@   modifies buf.$n, buf.$out[*]
+//@   ensures[grows]  buf.$n >= old(buf.$n)
+//@   ensures[prefix] forall k int :: 0 <= k && k < old(buf.$n) ==> buf.$out[k] == old(buf.$out[k])
+//@   loop 0:
+//@     invariant -1 <= rangeindex && rangeindex < len(data.Rules)
+//@     invariant buf.$n >= old(buf.$n) && forall k int :: 0 <= k && k < old(buf.$n) ==> buf.$out[k] == old(buf.$out[k])
+//@   loop 1:
+//@     invariant 0 <= i && buf.$n >= old(buf.$n) && forall k int :: 0 <= k && k < old(buf.$n) ==> buf.$out[k] == old(buf.$out[k])
+//@   loop 2:
+//@     invariant 0 <= i && buf.$n >= old(buf.$n) && forall k int :: 0 <= k && k < old(buf.$n) ==> buf.$out[k] == old(buf.$out[k])
+//@   loop 3:
+//@     invariant 0 <= i && buf.$n >= old(buf.$n) && forall k int :: 0 <= k && k < old(buf.$n) ==> buf.$out[k] == old(buf.$out[k])
+
+// Right-to-left emission: the caller writes *al back to front, so the pieces of one match are appended last rule first.
+//@ func replacementImplRTL(data *syntax.ReplacerData, al *[]string, m *Match)
+//@   props C09
+//@   requires ReplacerWF(data, len(m.matchcount)) && MatchForReplace(m) && al != nil && ref(*al) != ref(data.Strings)
+//@   modifies *al, elems(string)
+//@   ensures[count]  len(*al) == old(len(*al)) + len(data.Rules)
+//@   ensures[order]  forall i int :: 0 <= i && i < len(data.Rules) && data.Rules[len(data.Rules)-1-i] >= 0 ==> (*al)[old(len(*al)) + i] == data.Strings[data.Rules[len(data.Rules)-1-i]]
+//@   loop 0:
+//@     invariant -1 <= i && i < len(data.Rules) && len(l) == old(len(*al)) + (len(data.Rules) - 1 - i) && buf != nil && buf.$n >= 0 && ref(l) != ref(data.Strings)
+//@     invariant forall j int :: 0 <= j && j < len(data.Rules) - 1 - i && data.Rules[len(data.Rules)-1-j] >= 0 ==> l[old(len(*al)) + j] == data.Strings[data.Rules[len(data.Rules)-1-j]]
+//@     decreases i + 1
+//@   loop 1:
+//@     invariant 0 <= i && buf.$n >= 0
+//@   loop 2:
+//@     invariant 0 <= i && buf.$n >= 0
+//@   loop 3:
+//@     invariant 0 <= i && buf.$n >= 0
